@@ -21,10 +21,27 @@ import numpy as np
 import hgxv
 
 RULE = ("random histories of 1-40 public calls on 2 Hypergraph slots (+1 scratch slot for constructor calls) over a universe "
-        "of 3-6 mutually comparable labels of one of 12 kinds (small / shifted / negative ints, ints beyond the small-int cache "
+        "of 3-6 mutually comparable labels of one of 14 kinds (small / shifted / negative ints, ints beyond the small-int cache "
         "up to 10**30 incl. hash-colliding pairs, mixed int/float incl. +-inf, short strings, odd strings incl. '', strings "
-        "built at run time, tuple labels of mixed length, (str, int) tuples, nested tuples), hyperedge sizes 0-4 drawn mostly "
-        "from a pool of 4-6 favourite node sets given in permuted node order, weights k/4, metadata over 4 attribute names; "
+        "built at run time, tuple labels of mixed length, (str, int) tuples, nested tuples, universes of integers that share "
+        "ONE hash value (-1 / -2 / -2**61, 0 / 2**61-1 / 2*(2**61-1), ...) and tuples over them), hyperedge sizes 0-4 drawn "
+        "mostly from a pool of 4-6 favourite node sets given in permuted node order, metadata over 4 attribute names; "
+        "weights are exact multiples of 1/4 written as a number of a given Python type - one of three profiles per history: "
+        "small values as int / float; the same values as int, float, bool, numpy.float64 / float32 / int64 / int32, Fraction "
+        "next to each other; integers beyond 2**53 / 2**63 / 10**30 and floats up to 1e300 next to small floats and ints, 80% "
+        "of the weighted batches of such a history mixing an integer beyond 2**53 with a float (resp. two number types) in "
+        "ONE weights list; 40% of the histories concentrate on calls that store / replace / add up weights; a call whose "
+        "weight additions Python itself cannot do exactly (2**53 + 1 + 0.5) is not generated, a history ends before it; "
+        "besides fresh objects a history starts again from objects made by OTHER parts of the library: copy(), "
+        "copy.deepcopy, pickle, save_hypergraph(binary) + load_hypergraph, populate_from_dict(expose_data_structures()) "
+        "(must hold the same abstract hypergraph), subhypergraph, subhypergraph_by_orders, subhypergraph_largest_component, "
+        "get_edges(subhypergraph=True), filter_hypergraph, add_random_edge(s), random_hypergraph / random_uniform_hypergraph "
+        "(whatever the new object reports through the getters is the abstract hypergraph the rest of the history starts "
+        "from; in 40% it goes to the other slot and the source stays observed), and batched calls get the library's own "
+        "listings handed back (remove_edges(h.get_edges(..)), remove_nodes(h.get_nodes()), add_edges(g.get_edges(), "
+        "g.get_weights())); after a rejected call the next 1-3 calls go through OTHER entry points on the members of the "
+        "rejected call; every accepted batched call (60%) and constructor call is also compared with the same members one "
+        "call each on a copy taken before (implementation against implementation); "
         "every call is WRITTEN anew (presentation, derived from the case's `pres` seed and the call): each label is a freshly "
         "constructed equal object (int(str(x)), float / numpy.int64 / bool where exactly equal, re-joined strings, rebuilt "
         "tuples), hyperedges / node lists / hyperedge lists / weight lists / metadata lists come as tuple, list, set, frozenset, "
@@ -44,14 +61,24 @@ ASSUMPTIONS = ["hyperedges are given as duplicate-free node collections (the qua
                "node labels are mutually comparable and hashable; they reach the model as their rank in the label universe; "
                "equal objects of different type (1, 1.0, True, numpy.int64(1); 'a', numpy.str_('a')) are ONE label, as for a "
                "Python dict; numpy scalars are used only where numpy compares them exactly (|x| <= 2**53); NaN is no label",
-               "weights are multiples of 1/4 (float + is exact); weight and metadata lists are sequences (list, tuple, numpy "
-               "array, deque - the code indexes them); with weights the hyperedges of one batch are hashable and of one type "
+               "weights are multiples of 1/4 of any magnitude given as int, float, bool, numpy scalar or Fraction; a weight is "
+               "compared by its exact VALUE (3 and 3.0 are the same weight), its type matters only through Python's own +: the "
+               "histories contain only additions that Python does exactly on the objects a plain map would hold (an int plus a "
+               "float beyond 2**53, numpy int64 overflow, float32 rounding, int too large for a float are left out - there a "
+               "plain Python map itself would not 'add the weight'); weight and metadata lists are sequences (list, tuple, numpy "
+               "array of one number type or of objects, deque, pandas Series - the code indexes them; a caller who puts 2**53+1 "
+               "and 0.5 into ONE float array has rounded himself); with weights the hyperedges of one batch are hashable and of one type "
                "(tuple, frozenset or range - the code builds set(edge_list)); the constructor gets sized hyperedge lists "
                "when it is weighted with weights (it takes len)",
                "metadata dictionaries are stored and returned BY REFERENCE (design of the library, see C07): the caller passes a "
                "fresh dictionary per call and never mutates it afterwards, nor a dictionary returned by get_*_metadata / "
                "get_all_*_metadata / get_hypergraph_metadata / inside get_nodes(metadata=True) / get_edges(metadata=True); every "
-               "OTHER container handed in or returned is the caller's and he overwrites it",
+               "OTHER container handed in or returned is the caller's and he overwrites it; subhypergraph* / "
+               "get_edges(subhypergraph=True) hand the source's metadata dictionaries on to the new object (same design): when the "
+               "source stays observed the caller first sets deep copies through set_node_metadata / set_edge_metadata",
+               "objects made by subhypergraph*, filters and generators are taken as they report themselves (their content is the "
+               "subject of C05 / C06 / C13); this check demands that they are consistent and behave as the abstract hypergraph "
+               "they report for the rest of the history, and that copies hold what the source holds",
                "a call is 'rejected' when it raises any exception; exception classes are not compared"]
 TRUSTED = ["harness/c01.py PySpec: the abstract hypergraph used as the property oracle (60 lines of dict code)",
            "label genericity: the same abstract history gives the same answers whatever the labels are "
@@ -63,6 +90,90 @@ KEYS = ["weighted", "type", "color", "since"]          # attribute tokens 0..3
 VALS = [False, True, "Hypergraph", 5, "x", 2.5, [1, 2], {"a": 1}, None, ""]   # value tokens 0..9
 NSLOT = 3
 ONE = 4
+
+
+# ------------------------------------------------------------------------------------------------
+# weights.  The abstract history carries a weight as a TOKEN: (q, kind) = the exact value q/4 written as a number of the
+# given Python type (an old-style token is the bare int q; its type then follows from the call, see wkind).  The model
+# and the oracle compute with the exact quanta q (Lean `Int`, any magnitude); next to it the oracle keeps what a plain
+# Python map would hold: the very kind of object the caller passed, accumulated with Python's `+` (`pv`).  A history is
+# generated / continued only while that Python value IS the exact value (Python's + on the types at hand is exact), so
+# that "adds its weight" has one meaning for the implementation, the plain map and the model.
+WKINDS = {"i": "int", "f": "float", "F": "numpy.float64", "I": "numpy.int64", "b": "bool", "q": "fractions.Fraction",
+          "h": "numpy.float32", "j": "numpy.int32"}
+
+
+def wq(t):
+    return t if isinstance(t, int) else t[0]
+
+
+def wkind(t, flip=0):
+    if isinstance(t, int):
+        return "i" if (t % 4 == 0 and flip % 2 == 0) else "f"
+    return t[1]
+
+
+def mkw(t, flip=0):
+    """the number q/4 as a freshly built object of the token's type"""
+    if t is None:
+        return None
+    q, k = wq(t), wkind(t, flip)
+    if k == "i":
+        return int(str(q // 4))
+    if k == "f":
+        return q / 4
+    if k == "F":
+        return np.float64(q / 4)
+    if k == "I":
+        return np.int64(q // 4)
+    if k == "j":
+        return np.int32(q // 4)
+    if k == "b":
+        return bool(q // 4)
+    if k == "h":
+        return np.float32(q / 4)
+    if k == "q":
+        return Fraction(q, 4)
+    raise ValueError(k)
+
+
+def exactq(w):
+    """the exact value of a number object in quanta of 1/4 (a Fraction), or None"""
+    try:
+        if isinstance(w, (bool, np.bool_)):
+            return Fraction(int(w)) * 4
+        if isinstance(w, (int, np.integer)):
+            return Fraction(int(w)) * 4
+        if isinstance(w, (float, np.floating)):
+            return Fraction(float(w)) * 4
+        if isinstance(w, Fraction):
+            return w * 4
+    except (OverflowError, ValueError):
+        return None
+    return None
+
+
+def wtoken_of(w):
+    """the token of a weight object the hypergraph handed out (None when it is not a multiple of 1/4 of a known type)"""
+    kinds = [(bool, "b"), (np.float64, "F"), (float, "f"), (np.int64, "I"), (np.int32, "j"), (np.float32, "h"), (int, "i"),
+             (Fraction, "q")]
+    q = exactq(w)
+    if q is None or q.denominator != 1:
+        return None
+    for t, k in kinds:
+        if type(w) is t:
+            return (int(q), k)
+    return None
+
+
+def wtoken_ok(t, flip=0):
+    """the token denotes what it says: the object of that type has exactly the value q/4"""
+    try:
+        with warnings.catch_warnings():
+            warnings.simplefilter("ignore")
+            return exactq(mkw(t, flip)) == wq(t)
+    except Exception:
+        return False
 
 
 # ------------------------------------------------------------------------------------------------
@@ -138,7 +249,8 @@ class PySpec:
     def __init__(self, weighted=False, hm=None):
         self.w = bool(weighted)
         self.nodes = {}                      # node -> {attr: val}
-        self.edges = {}                      # frozenset -> [weight, {attr: val}]
+        self.edges = {}                      # frozenset -> [weight in quanta, {attr: val}, weight as the Python object of a plain map]
+        self.inexact = False                 # a Python `+` of the history was not exact (or raised): the history ends before it
         self.hm = dict(hm or {})
         self.hm[0] = 1 if weighted else 0
         self.hm[1] = 2
@@ -150,16 +262,29 @@ class PySpec:
         if not self.nodes[n]:
             self.nodes[n] = dict(md or {})
 
-    def _add_edge(self, e, w=None, md=None):
-        if not self.w and w is not None and w != ONE:
+    def _add_edge(self, e, w=None, md=None, flip=0, pv=None):
+        """w: a weight token (or None); pv: the Python object when the weight is one the hypergraph holds (remove_node)"""
+        q = None if w is None else wq(w)
+        if w is not None and pv is None:
+            pv = mkw(w, flip)
+        if not self.w and q is not None and q != ONE:
             raise Rej
         k = frozenset(e)
         if k in self.edges:
             if self.w:
-                self.edges[k][0] += ONE if w is None else w
+                ent = self.edges[k]
+                ent[0] += ONE if q is None else q
+                try:
+                    with warnings.catch_warnings():
+                        warnings.simplefilter("ignore")
+                        ent[2] = ent[2] + (1 if pv is None else pv)
+                    if exactq(ent[2]) != ent[0]:
+                        self.inexact = True
+                except Exception:
+                    self.inexact = True
             self.edges[k][1] = dict(md or {})
         else:
-            self.edges[k] = [(ONE if w is None else w) if self.w else ONE, dict(md or {})]
+            self.edges[k] = [(ONE if q is None else q), dict(md or {}), (1 if pv is None else pv)] if self.w else [ONE, dict(md or {}), 1]
             for n in sorted(k):
                 self._add_node(n)
 
@@ -175,19 +300,23 @@ class PySpec:
         inc = [k for k in self.edges if n in k]
         if keep:
             for k in inc:
-                w, md = self.edges[k]
-                self._add_edge(k - {n}, w, md)
+                w, md, pv = self.edges[k]
+                self._add_edge(k - {n}, w, md, pv=pv)
         for k in inc:
             del self.edges[k]
         del self.nodes[n]
 
     def do(self, c):
-        """apply an operation tuple atomically; True = accepted"""
+        """apply an operation tuple atomically; True = accepted.  When a Python `+` of the operation is not exact nothing is
+        applied and `self.inexact` is set (the caller ends / regenerates the history there)"""
         t = copy.deepcopy(self)
         try:
             t._do(c)
         except Rej:
             return False
+        if t.inexact:
+            self.inexact = True
+            return True
         self.__dict__ = t.__dict__
         return True
 
@@ -207,7 +336,7 @@ class PySpec:
             for n in c[1]:
                 self._add_node(n, None if c[2] is None else c[2][n])
         elif op == "addedge":
-            self._add_edge(c[1], c[2], c[3])
+            self._add_edge(c[1], c[2], c[3], flip=len(c[1]))
         elif op == "addedges":
             es, ws, mds = c[1], c[2], c[3]
             if ws is not None and (len(set(map(tuple, es))) != len(es) or len(ws) != len(es)):
@@ -217,7 +346,7 @@ class PySpec:
             if ws is not None:
                 self.w = True
             for i, e in enumerate(es):
-                self._add_edge(e, None if ws is None else ws[i], None if mds is None else mds[i])
+                self._add_edge(e, None if ws is None else ws[i], None if mds is None else mds[i], flip=i)
         elif op == "rmedge":
             self._remove_edge(c[1])
         elif op == "rmedges":
@@ -234,9 +363,10 @@ class PySpec:
             for n in c[1]:
                 self._remove_node(n, c[2])
         elif op == "setw":
-            if not self.w and c[2] != ONE:
+            if not self.w and wq(c[2]) != ONE:
                 raise Rej
-            self._edge_of(c[1])[0] = c[2]
+            ent = self._edge_of(c[1])
+            ent[0], ent[2] = wq(c[2]), mkw(c[2], len(c[1]))
         elif op == "setnmeta":
             if c[1] not in self.nodes:
                 raise Rej
@@ -360,7 +490,7 @@ class PySpec:
         raise ValueError(name)
 
     def digest(self):
-        return (self.w, sorted(self.nodes.items()), sorted((sorted(k), v) for k, v in self.edges.items()), sorted(self.hm.items()))
+        return (self.w, sorted(self.nodes.items()), sorted((sorted(k), v[:2]) for k, v in self.edges.items()), sorted(self.hm.items()))
 
 
 # ------------------------------------------------------------------------------------------------
@@ -448,7 +578,9 @@ def fresh(x, r):
                 return bool(x)
         return int(str(x))
     if isinstance(x, float):
-        return np.float64(x) if r.random() < 0.25 else float(repr(x))
+        # (numpy compares its float with a Python int after ROUNDING the int: next to integer labels beyond 2**53 a numpy
+        # float is not an equal object any more - it equals several of them)
+        return np.float64(x) if (r.random() < 0.25 and (abs(x) <= 2 ** 53 or x in (float("inf"), float("-inf")))) else float(repr(x))
     return x
 
 
@@ -469,7 +601,7 @@ def as_range(base):
 def as_array(objs):
     """1-d numpy array whose elements are equal (and hash-equal) to the given labels, or None"""
     try:
-        if any(isinstance(x, int) and abs(x) > 2 ** 53 for x in objs):
+        if any(isinstance(x, (int, float)) and abs(x) > 2 ** 53 for x in objs):
             return None
         with warnings.catch_warnings():
             warnings.simplefilter("ignore")
@@ -631,7 +763,7 @@ class Real:
         elif outer == "np":
             rows = [[self.lab(n, P) for n in e] for e in es]
             try:
-                if any(isinstance(x, int) and abs(x) > 2 ** 53 for row in rows for x in row):
+                if any(isinstance(x, (int, float)) and abs(x) > 2 ** 53 for row in rows for x in row):
                     raise ValueError
                 with warnings.catch_warnings():
                     warnings.simplefilter("ignore")
@@ -680,38 +812,40 @@ class Real:
         return None if m is None else {KEYS[k]: copy.deepcopy(VALS[v]) for k, v in m.items()}
 
     @staticmethod
-    def wt(q, flip=0, P=None):
-        if q is None:
-            return None
-        if q % 4 == 0 and flip % 2 == 0:
-            w = q // 4
-        else:
-            w = q / 4
-        if P is not None and not P.plain:
-            c = P.r.random()
-            if c < 0.15:
-                return np.float64(w)
-            if c < 0.25 and isinstance(w, int):
-                return np.int64(w)
-            if c < 0.3 and w == 1:
-                return True
-        return w
+    def wt(t, flip=0, P=None):
+        """the weight object of a token: its TYPE is part of the abstract call (Python's + depends on it), not of the presentation"""
+        return mkw(t, flip)
 
     def wlist(self, ws, P):
         vals = [self.wt(w, j, P) for j, w in enumerate(ws)]
         if P.plain:
             return vals
-        k = P.r.choice(["list", "list", "list", "tuple", "tuple", "np", "np", "deque"])     # the code indexes it: sequences
+        kinds = {wkind(w, j) for j, w in enumerate(ws)}
+        k = P.r.choice(["list", "list", "list", "tuple", "tuple", "np", "np", "deque", "series", "npobj"])     # the code indexes it: sequences
+        if k == "npobj" and vals:
+            a = np.empty(len(vals), dtype=object)
+            a[:] = vals
+            return P.give(a)
         if k == "tuple":
             return tuple(vals)
         if k == "np" and vals:
+            # an array has ONE element type: only where that is the type the caller's numbers have anyway (a caller who
+            # puts 2**53 + 1 and 0.5 into one float array has rounded the integer himself)
+            dt = (np.float64 if kinds <= {"f", "F"} else np.int64 if kinds == {"I"} else np.float32 if kinds == {"h"}
+                  else np.int32 if kinds == {"j"} else None)
             try:
-                a = np.array([float(v) for v in vals]) if P.r.random() < 0.7 else np.array(vals)
-                if a.dtype != object and all(u == v for u, v in zip(a, vals)):
+                a = np.array(vals, dtype=dt) if dt is not None else None
+                if a is not None and all(exactq(u) == exactq(v) for u, v in zip(a, vals)):
                     return P.give(a)
             except Exception:
                 pass
             return P.give(vals)
+        if k == "series" and vals:
+            try:
+                import pandas as pd
+                return pd.Series(vals, dtype=np.float64 if kinds <= {"f", "F"} else object)
+            except Exception:
+                return P.give(vals)
         if k == "deque":
             return P.give(collections.deque(vals))
         return P.give(vals)
@@ -756,11 +890,8 @@ class Real:
 
     @staticmethod
     def rw(w):
-        try:
-            q = Fraction(w) * 4
-            return int(q) if q.denominator == 1 else f"?{w!r}"
-        except Exception:
-            return f"?{w!r}"
+        q = exactq(w)
+        return int(q) if (q is not None and q.denominator == 1) else f"?{w!r}"
 
     # commands -------------------------------------------------------------------------------
     def prepare(self, i, c, P):
@@ -823,6 +954,43 @@ class Real:
             if v == 2:
                 return c, lambda: h.add_edges(edge_list=es, weights=ws, metadata=ms)
             return c, lambda: h.add_edges(es, ws, metadata=ms)
+        if op in ("rmedges*", "rmnodes*", "addedges*"):
+            # the argument is a container the LIBRARY made: the listing of this / of the other hypergraph, handed back as it is
+            with warnings.catch_warnings():
+                warnings.simplefilter("ignore")
+                if op == "rmedges*":
+                    o, k, up = c[1]
+                    kw = {}
+                    if o is not None:
+                        kw["order"] = o
+                    if k is not None:
+                        kw["size"] = k
+                    if up:
+                        kw["up_to"] = True
+                    lst = h.get_edges(**kw)
+                    c2 = ("rmedges", [self.redge(e) for e in lst])
+                    thunk = (lambda: h.remove_edges(lst)) if v < 3 else (lambda: h.remove_edges(edge_list=lst))
+                elif op == "rmnodes*":
+                    lst = h.get_nodes()
+                    keep = bool(c[1])
+                    c2 = ("rmnodes", [self.rk(x) for x in lst], c[1])
+                    thunk = (lambda: h.remove_nodes(lst, keep_edges=keep)) if v < 2 else (lambda: h.remove_nodes(lst, keep))
+                else:
+                    g = self.slots[c[1]]
+                    lst = g.get_edges()
+                    ws = g.get_weights() if g.is_weighted() else None
+                    toks = None if ws is None else [wtoken_of(w) for w in ws]
+                    c2 = ("addedges", [self.redge(e) for e in lst], toks, None)
+                    if ws is not None:
+                        P.give(ws)
+                    thunk = (lambda: h.add_edges(lst)) if ws is None else \
+                        ((lambda: h.add_edges(lst, ws)) if v < 2 else (lambda: h.add_edges(lst, weights=ws)))
+            if isinstance(lst, list):
+                P.give(lst)
+            flat = [x for e in c2[1] for x in (e if isinstance(e, tuple) else (e,))]
+            if any(not isinstance(x, int) for x in flat) or (op == "addedges*" and c2[2] is not None and None in c2[2]):
+                raise ValueError(f"a listing holds something no call of the history put in: {c2!r}")
+            return c2, thunk
         if op == "rmedge":
             e = self.edge(c[1], P)
             return c, (lambda: h.remove_edge(e)) if v < 3 else (lambda: h.remove_edge(edge=e))
@@ -965,14 +1133,196 @@ class Real:
             self.slots[i] = h
         return c2, thunk
 
-    def copy(self, i, j):
+    def copy(self, i, j, how="copy"):
+        """slot j := an object that another part of the library / of Python makes from slot i and that must hold the same
+        abstract hypergraph: copy(), copy.deepcopy, a pickle round trip, save_hypergraph(binary=True) + load_hypergraph,
+        populate_from_dict of the (deep-copied) exposed data structures"""
         try:
-            self.slots[j] = self.slots[i].copy()
+            h = self.slots[i]
+            with warnings.catch_warnings():
+                warnings.simplefilter("ignore")
+                if how == "copy":
+                    g = h.copy()
+                elif how == "deepcopy":
+                    g = copy.deepcopy(h)
+                elif how == "pickle":
+                    import pickle
+                    g = pickle.loads(pickle.dumps(h))
+                elif how == "hgx":
+                    import os
+                    import tempfile
+                    from hypergraphx.readwrite.load import load_hypergraph
+                    from hypergraphx.readwrite.save import save_hypergraph
+                    with tempfile.TemporaryDirectory() as d:
+                        f = os.path.join(d, "h.hgx")
+                        save_hypergraph(h, f, binary=True)
+                        g = load_hypergraph(f)
+                elif how == "expose":
+                    g = self.H()
+                    g.populate_from_dict(copy.deepcopy(h.expose_data_structures()))
+                else:
+                    raise ValueError(how)
+            if not isinstance(g, self.H):
+                return False
+            self.slots[j] = g
             return True
         except AlarmTimeout:
             raise
         except Exception:
             return False
+
+    def derive(self, i, how, arg, P, j=None):
+        """slot j (default i) := a Hypergraph that another part of the library makes from slot i (or from nothing): the
+        starting point of the rest of the history.  Returns None or the text of what went wrong.
+        With j != i the source stays under observation; the subhypergraph routines hand the source's metadata
+        dictionaries on by reference (by design, see ASSUMPTIONS), so the caller first gives the new object dictionaries of
+        its own through the public setters - anything else the two objects share is the library's."""
+        h = self.slots[i]
+        j = i if j is None else j
+        try:
+            with warnings.catch_warnings():
+                warnings.simplefilter("ignore")
+                if how == "sub":
+                    ns = [self.lab(n, P) for n in arg]
+                    g = h.subhypergraph(ns if P.r.random() < 0.6 else tuple(ns))
+                elif how == "suborders":
+                    orders, sizes, keep = arg
+                    kw = {"orders": list(orders)} if orders is not None else {"sizes": list(sizes)}
+                    if not keep or P.r.random() < 0.5:
+                        kw["keep_nodes"] = bool(keep)
+                    g = h.subhypergraph_by_orders(**kw)
+                elif how == "sublcc":
+                    g = h.subhypergraph_largest_component()
+                elif how == "edgesub":
+                    o, k, up, iso = arg
+                    kw = {"subhypergraph": True}
+                    if o is not None:
+                        kw["order"] = o
+                    if k is not None:
+                        kw["size"] = k
+                    if up:
+                        kw["up_to"] = True
+                    if iso:
+                        kw["keep_isolated_nodes"] = True
+                    g = h.get_edges(**kw)
+                elif how == "filter":
+                    from hypergraphx.filters.metadata_filters import filter_hypergraph
+                    nc, ec, mode, keep = arg
+                    cv = lambda c: None if c is None else {KEYS[int(k)]: [copy.deepcopy(VALS[v]) for v in vs] for k, vs in c.items()}
+                    filter_hypergraph(h, node_criteria=cv(nc), edge_criteria=cv(ec), mode=mode, keep_edges=bool(keep))
+                    g = h
+                elif how == "addrand":
+                    from hypergraphx.generation.random import add_random_edge, add_random_edges
+                    size, inplace, seed, count = arg
+                    if count is None:
+                        g = add_random_edge(h, size=size, inplace=bool(inplace), seed=seed)
+                    else:
+                        g = add_random_edges(h, count, order=size - 1, inplace=bool(inplace), seed=seed)
+                    if inplace:
+                        g = h
+                elif how == "random":
+                    from hypergraphx.generation.random import random_hypergraph, random_uniform_hypergraph
+                    n, by_size, seed = arg
+                    by_size = {int(k): v for k, v in by_size.items()}
+                    if len(by_size) == 1 and P.r.random() < 0.4:
+                        (k, v), = by_size.items()
+                        g = random_uniform_hypergraph(n, k, v, seed)
+                    else:
+                        g = random_hypergraph(n, by_size, seed=seed)
+                else:
+                    raise ValueError(how)
+            if not isinstance(g, self.H):
+                return f"returned a {type(g).__name__}, not a Hypergraph"
+            if j != i:
+                if g is h:
+                    return "returned the hypergraph itself"
+                with warnings.catch_warnings():
+                    warnings.simplefilter("ignore")
+                    for x in g.get_nodes():
+                        g.set_node_metadata(x, copy.deepcopy(g.get_node_metadata(x)))
+                    for e in g.get_edges():
+                        g.set_edge_metadata(e, copy.deepcopy(g.get_edge_metadata(e)))
+            self.slots[j] = g
+            return None
+        except AlarmTimeout:
+            raise
+        except Exception as ex:
+            return f"raised {type(ex).__name__}: {ex}"
+
+    def readout(self, i):
+        """the abstract hypergraph an object holds, read through the public getters:
+        (weighted, hypergraph metadata, {node: metadata}, [(hyperedge, quanta, metadata, weight object)]) in rank / token space"""
+        h = self.slots[i]
+        with warnings.catch_warnings():
+            warnings.simplefilter("ignore")
+            w = bool(h.is_weighted())
+            hm = self.rmd(h.get_hypergraph_metadata())
+            nodes = {self.rk(n): self.rmd(m) for n, m in h.get_nodes(metadata=True).items()}
+            edges = []
+            for e, m in h.get_edges(metadata=True).items():
+                pv = h.get_weight(e)
+                edges.append((self.redge(e), self.rw(pv), self.rmd(m), pv))
+        bad = [x for x in nodes if not isinstance(x, int)] + [x for e in edges for x in e[0] if not isinstance(x, int)]
+        if bad:
+            raise ValueError(f"it holds labels that no call of the history named: {bad[:3]}")
+        for d in [hm] + list(nodes.values()) + [e[2] for e in edges]:
+            for k, v in d.items():
+                if not isinstance(k, int) or not isinstance(v, int):
+                    raise ValueError(f"it holds metadata that no call of the history gave: {k!r}: {v!r}")
+        for e in edges:
+            if not isinstance(e[1], int):
+                raise ValueError(f"it holds the weight {e[1]} for the hyperedge {e[0]}")
+        return w, hm, nodes, edges
+
+    def observe(self, h):
+        """the observable content of an object in rank / token space (for implementation-vs-implementation comparisons)"""
+        with warnings.catch_warnings():
+            warnings.simplefilter("ignore")
+            nodes = {str(self.rk(n)): self.rmd(m) for n, m in h.get_nodes(metadata=True).items()}
+            edges = {r_edge(self.redge(e)): (self.rw(h.get_weight(e)), self.rmd(m)) for e, m in h.get_edges(metadata=True).items()}
+            inc = {str(self.rk(n)): sorted(r_edge(self.redge(e)) for e in h.get_incident_edges(n)) for n in h.get_nodes()}
+            return {"weighted": bool(h.is_weighted()), "nodes": nodes, "edges": edges, "incident": inc,
+                    "hmeta": self.rmd(h.get_hypergraph_metadata()), "num_edges": h.num_edges(), "len": len(h),
+                    "weights": sorted(map(str, (self.rw(x) for x in h.get_weights())))}
+
+    def one_by_one(self, twin, op, P):
+        """the members of a batched call, one call each, on `twin`"""
+        with warnings.catch_warnings():
+            warnings.simplefilter("ignore")
+            if op[0] == "addnodes":
+                for n in op[1]:
+                    twin.add_node(self.lab(n, P), None if op[2] is None else self.md(op[2][n]))
+            elif op[0] == "addedges":
+                es, ws, mds = op[1], op[2], op[3]
+                if ws is not None and not twin.is_weighted():
+                    twin.add_edges([], weights=[])          # the batch with weights switches the hypergraph to weighted
+                for j, e in enumerate(es):
+                    kw = {}
+                    if ws is not None:
+                        kw["weight"] = self.wt(ws[j], j)
+                    if mds is not None:
+                        kw["metadata"] = self.md(mds[j])
+                    twin.add_edge(self.edge(e, P, kind="tuple"), **kw)
+            elif op[0] == "rmedges":
+                for e in op[1]:
+                    twin.remove_edge(self.edge(e, P, kind="tuple"))
+            elif op[0] == "rmnodes":
+                for n in op[1]:
+                    twin.remove_node(self.lab(n, P), keep_edges=bool(op[2]))
+            else:
+                raise ValueError(op[0])
+
+    def ctor_one_by_one(self, c, P):
+        """the constructor call written as single calls on an empty hypergraph"""
+        _, i, weighted, hm, nmeta, es, ws, mds = c
+        with warnings.catch_warnings():
+            warnings.simplefilter("ignore")
+            t = self.H(weighted=weighted, hypergraph_metadata=self.md(hm) if hm else None)
+            for n, m in (nmeta or {}).items():
+                t.add_node(self.lab(n, P), self.md(m))
+            if es:
+                self.one_by_one(t, ("addedges", es, ws, mds), P)
+        return t
 
     # queries --------------------------------------------------------------------------------
     @staticmethod
@@ -1226,9 +1576,9 @@ def op_line(i, c):
     elif op == "addnodes":
         a = f"{w_nats(c[1])} " + w_opt(c[2], lambda d: ";".join(f"{n}={w_meta(m, '_')}" for n, m in d.items()) if d else "-")
     elif op == "addedge":
-        a = f"{w_nats(c[1])} {w_opt(c[2], str)} {w_opt(c[3], w_meta)}"
+        a = f"{w_nats(c[1])} {w_opt(c[2], lambda t: str(wq(t)))} {w_opt(c[3], w_meta)}"
     elif op == "addedges":
-        a = (f"{w_natss(c[1])} {w_opt(c[2], w_nats)} "
+        a = (f"{w_natss(c[1])} {w_opt(c[2], lambda l: w_nats([wq(t) for t in l]))} "
              + w_opt(c[3], lambda l: ";".join(w_meta(m, "_") for m in l) if l else "-"))
     elif op in ("rmedge",):
         a = w_nats(c[1])
@@ -1239,7 +1589,7 @@ def op_line(i, c):
     elif op == "rmnodes":
         a = f"{w_nats(c[1])} {1 if c[2] else 0}"
     elif op == "setw":
-        a = f"{w_nats(c[1])} {c[2]}"
+        a = f"{w_nats(c[1])} {wq(c[2])}"
     elif op == "setnmeta":
         a = f"{c[1]} {w_meta(c[2])}"
     elif op == "setemeta":
@@ -1351,6 +1701,8 @@ def light_queries(rng, n_nodes, pool):
 # ------------------------------------------------------------------------------------------------
 # generation
 
+COPYHOW = ["copy", "copy", "deepcopy", "pickle", "hgx", "expose"]
+
 BIG = ([0, 1] + list(range(257, 262)) + [300, 1000, 1001, 1002, 4096, 65535, 2 ** 61 - 1, 2 ** 61,   # hash(2**61-1) == hash(0)
         2 ** 31 - 1, 2 ** 31, 2 ** 32 + 5, 2 ** 53 - 1, 2 ** 53,
                                  2 ** 63 - 1, 2 ** 63, 2 ** 64 + 3, 10 ** 30, 10 ** 30 + 1])
@@ -1361,6 +1713,9 @@ MIXNUM = [float("-inf"), -1e300, -1000.75, -3.5, -1, -0.5, 0, 0.25, 1, 1.5, 2, 2
           float("inf")]
 STRLONG = (["node-%d" % i for i in range(12)] + ["n_%03d" % i for i in (1, 10, 100)] + ["v" * 30 + str(i) for i in range(3)]
            + ["\u00e9l\u00e9ment-%d" % i for i in range(3)] + ["gene:BRCA%d" % i for i in (1, 2)] + ["ab", "abc", "a b", "A-1"])
+P61 = 2 ** 61 - 1          # CPython: hash(int) = int mod P61 (sign kept), and hash(-1) == -2
+COLLIDE = [-2 * P61 - 1, -P61 - 2, -P61 - 1, -P61, -2, -1, 0, 1, P61 - 1, P61, P61 + 1, 2 * P61 - 1, 2 * P61, 2 * P61 + 1, 3 * P61, 3 * P61 + 1]
+TUPCOLL = [(a, b) for a in (-2, -1, 0, P61) for b in (-2, -1, P61 - 1, 2 * P61 - 2)] + [(-1,), (-2,), (0,), (P61,), ()]
 TUPLES = [(), (0,), (0, 0), (0, 1), (0, 1, 2), (1,), (1, 0), (1, 2), (2,), (2, 5, 1), (300, 1), (1000, -7), (-1, 4), (2 ** 40, 0)]
 TUPSTR = [(a, i) for a in ("a", "layer-1", "layer-2", "") for i in (0, 1, 2, 1000)]
 TUPNEST = [((a, b), c) for a in (0, 1) for b in (0, 2, 500) for c in (0, 1, 999)]
@@ -1369,7 +1724,7 @@ TUPNEST = [((a, b), c) for a in (0, 1) for b in (0, 2, 500) for c in (0, 1, 999)
 def gen_labels(rng, n):
     """a universe of n mutually comparable labels in increasing order (rank = position)"""
     kind = rng.choice(["int", "int", "shift", "neg", "big", "big", "bigneg", "mixnum", "str", "str2", "strlong", "strlong",
-                       "tuple", "tupstr", "tupnest"])
+                       "tuple", "tupstr", "tupnest", "collide", "collide", "tupcoll"])
     if kind == "int":
         return kind, list(range(n))
     if kind == "shift":
@@ -1380,8 +1735,16 @@ def gen_labels(rng, n):
         return kind, sorted(rng.sample(["a", "b", "c", "d", "e", "f", "g", "h", "aa", "ab", "B", "Z"], n))
     if kind == "str2":
         return kind, sorted(rng.sample(["n10", "n9", "n1", "x", "y", "E1", "E", "", " ", "10", "9"], n))
+    if kind == "collide":
+        # labels that share their hash in pairs / triples (-1 / -2 / -P61-1, 0 / P61 / 2*P61 ...): hyperedge tuples over
+        # them collide too, so every dict / set of the implementation must tell them apart by equality
+        cls = rng.choice([[-2, -1, -P61 - 1, -P61 - 2, -2 * P61 - 1], [0, P61, 2 * P61, -P61, 3 * P61],
+                          [1, P61 + 1, 2 * P61 + 1, 3 * P61 + 1], [-2, -1, 0, P61, -P61 - 1, P61 - 2]])
+        more = [x for x in COLLIDE if x not in cls]
+        k = min(len(cls), max(2, n - rng.randint(0, 2)))
+        return kind, sorted(rng.sample(cls, k) + rng.sample(more, n - k))
     pool = {"big": BIG, "bigneg": BIGNEG, "mixnum": MIXNUM, "strlong": STRLONG, "tuple": TUPLES, "tupstr": TUPSTR,
-            "tupnest": TUPNEST}[kind]
+            "tupnest": TUPNEST, "tupcoll": TUPCOLL}[kind]
     return kind, sorted(rng.sample(pool, n))
 
 
@@ -1394,8 +1757,42 @@ def gen_meta(rng, allow_none=True):
     return {a: rng.randrange(len(VALS)) for a in ks}
 
 
-def gen_weight(rng):
-    return rng.choice([2, 4, 4, 6, 8, 8, 12, 1, 0, -4])
+GRID = [2, 4, 4, 6, 8, 8, 12, 1, 0, -4]
+BIGW_INT = [2 ** 53 + 1, 2 ** 53 + 1, 2 ** 53, 2 ** 53 - 1, 2 ** 53 + 3, 2 ** 63, 2 ** 63 - 1, 2 ** 63 + 1, 2 ** 64 + 3, 10 ** 30 + 1, 2 ** 24 + 1,
+            2 ** 31, 2 ** 62 + 1, -(2 ** 53 + 1), -(2 ** 63) - 1, 3 * 2 ** 70 + 7]
+BIGW_FLOAT = [2.0 ** 53, 2.0 ** 53 + 2, 2.0 ** 60 + 256, 1e300, -2.0 ** 53, 2.0 ** 52 + 0.5, 2.0 ** 51 + 0.25, 2.0 ** 24 + 1, 2.0 ** 63,
+              2.0 ** 64, 16777217.5, 8388608.25, 1048576.75 + 2.0 ** 30, 3.5e38, 65504.25, 2049.25]
+
+
+def one_token(rng):
+    """the weight 1 in one of its spellings (an unweighted hypergraph takes them all)"""
+    return (ONE, rng.choice(["i", "i", "f", "b", "F", "I", "q", "h"]))
+
+
+def gen_weight(rng, profile="grid"):
+    """a weight token (q, kind).  Profiles: grid = small multiples of 1/4 written as int / float (as before);
+    types = the same values as int, float, bool, numpy scalars, Fractions next to each other;
+    big = integers beyond 2**53 / 2**63, large floats, next to small floats and ints"""
+    if profile == "grid":
+        q = rng.choice(GRID)
+        return (q, "i" if (q % 4 == 0 and rng.random() < 0.5) else "f")
+    if profile == "types" or rng.random() < 0.45:
+        q = rng.choice(GRID)
+        ks = ["f", "f", "F", "q", "h"]
+        if q % 4 == 0:
+            ks += ["i", "i", "i", "I", "I", "j"]
+        if q in (0, 4):
+            ks += ["b", "b"]
+        return (q, rng.choice(ks))
+    if rng.random() < 0.6:
+        v = rng.choice(BIGW_INT)
+        if rng.random() < 0.3:
+            v += rng.choice([-2, -1, 1, 2, 5])
+        k = "I" if (abs(v) < 2 ** 62 and rng.random() < 0.15) else ("q" if rng.random() < 0.1 else "i")
+        return (4 * v, k)
+    x = rng.choice(BIGW_FLOAT)
+    t = (int(Fraction(x) * 4), "F" if rng.random() < 0.25 else "f")
+    return t
 
 
 def perm(rng, e):
@@ -1409,6 +1806,10 @@ class Gen:
         self.rng = rng
         self.n = rng.randint(3, 6)
         self.kind, self.labels = gen_labels(rng, self.n)
+        self.profile = rng.choice(["grid", "grid", "types", "types", "big", "big", "big"])
+        self.flavour = rng.choice(["mix", "mix", "mix", "weights", "weights"])
+        self.hot = None          # (slot, node ranks) of the last rejected call: the next calls go through OTHER entry points
+        self.jsonable = self.kind in ("int", "shift", "neg", "big", "bigneg", "collide", "str", "str2", "strlong")
         pool = set()
         for _ in range(rng.randint(4, 6)):
             k = rng.choice([0, 1, 1, 2, 2, 2, 3, 3, 3, 4])
@@ -1420,10 +1821,114 @@ class Gen:
             e = rng.choice(big)
             self.pool.append(tuple(x for x in e if x != rng.choice(e)))
             self.pool = sorted(set(self.pool))
+        # universes whose labels share hash values: favourite node sets come in pairs that differ by one node of equal hash
+        # (their tuples then have equal hashes too), and batches are built from such pairs (collide_op)
+        self.hashes = {i: hash(x) for i, x in enumerate(self.labels)}
+        self.colliding = len(set(self.hashes.values())) < self.n
+        if self.colliding:
+            extra = []
+            for e in self.pool:
+                for x in e:
+                    for y in range(self.n):
+                        if y not in e and self.hashes[y] == self.hashes[x]:
+                            extra.append(tuple(sorted(y if z == x else z for z in e)))
+            rng.shuffle(extra)
+            self.pool = sorted(set(self.pool) | set(extra[:3]))
+
+    def weight(self):
+        return gen_weight(self.rng, self.profile)
+
+    def batch_weights(self, k):
+        """the weights of ONE batch: next to each other an integer beyond 2**53 and a float (profile big), numbers of
+        different Python types (profile types)"""
+        rng = self.rng
+        ws = [self.weight() for _ in range(k)]
+        if k >= 2 and self.profile != "grid" and rng.random() < 0.85:
+            a, b = rng.sample(range(k), 2)
+            if self.profile == "big":
+                mode = rng.random()
+                if mode < 0.6:            # an integer beyond 2**53 next to a float
+                    v = rng.choice(BIGW_INT) + rng.choice([0, 0, 1, -1, 2])
+                    ws[a] = (4 * v, "i")
+                    q = rng.choice([2, 6, 1, 10, 4, 8, int(Fraction(rng.choice(BIGW_FLOAT)) * 4)])
+                    ws[b] = (q, rng.choice(["f", "f", "f", "F", "h" if abs(q) < 64 else "f"]))
+                elif mode < 0.8:          # floats only, one of them with more digits than a float32 / beyond its range
+                    ws = [(q, "f") if wkind(t) not in ("f", "F") and wtoken_ok((q, "f")) else t for t in ws for q in [wq(t)]]
+                    ws = [t if wkind(t) in ("f", "F") else (rng.choice([2, 6, 1, 10]), "f") for t in ws]
+                    ws[a] = (int(Fraction(rng.choice(BIGW_FLOAT)) * 4), rng.choice(["f", "f", "F"]))
+                else:                     # Python ints only, one of them beyond 2**53 / 2**63
+                    ws = [t if wkind(t) == "i" else (4 * rng.choice([1, 2, 3, 0, -1, 7]), "i") for t in ws]
+                    ws[a] = (4 * (rng.choice(BIGW_INT) + rng.choice([0, 1, -1])), "i")
+            elif wkind(ws[a]) == wkind(ws[b]):
+                q = rng.choice([4, 8, 12, 0, -4])
+                ws[b] = (q, rng.choice([x for x in ["i", "f", "F", "I", "q", "h", "j"] if x != wkind(ws[a])]))
+        return ws
+
+    def ehash(self, e):
+        return hash(tuple(sorted(self.labels[x] for x in e)))
+
+    def collide_op(self, spec):
+        """a batched call whose members are DIFFERENT but have EQUAL hashes (or None)"""
+        rng = self.rng
+        r = rng.random()
+        if r < 0.35:
+            ns = sorted(spec.nodes)
+            pairs = [(a, b) for a in ns for b in ns if a < b and self.hashes[a] == self.hashes[b]]
+            if not pairs:
+                return None
+            mem = list(rng.choice(pairs))
+            mem += [x for x in ns if x not in mem and rng.random() < 0.3]
+            rng.shuffle(mem)
+            return ("rmnodes", mem, rng.random() < 0.5)
+        present = [tuple(sorted(k)) for k in spec.edges]
+        if r < 0.7:
+            pairs = [(a, b) for a in present for b in present if a < b and self.ehash(a) == self.ehash(b)]
+            if not pairs:
+                return None
+            mem = list(rng.choice(pairs))
+            mem += [e for e in present if e not in mem and rng.random() < 0.25]
+            rng.shuffle(mem)
+            return ("rmedges", [perm(rng, e) for e in mem])
+        cands = sorted(set(present) | set(self.pool))
+        pairs = [(a, b) for a in cands for b in cands if a < b and self.ehash(a) == self.ehash(b)]
+        if not pairs:
+            return None
+        mem = list(rng.choice(pairs))
+        rng.shuffle(mem)
+        if rng.random() < 0.6:
+            return ("addedges", mem, self.batch_weights(len(mem)), None)
+        return ("addedges", [perm(rng, e) for e in mem], None, [gen_meta(rng, allow_none=False) for _ in mem] if rng.random() < 0.5 else None)
+
+    def weight_op(self, spec):
+        """calls that store, replace and add up weights"""
+        rng = self.rng
+        r = rng.random()
+        if r < 0.45:
+            es = []
+            for _ in range(rng.choice([1, 2, 2, 3, 3, 4])):
+                e = self.edge(spec, present=rng.random() < 0.4)
+                if e not in es:
+                    es.append(e)
+            return ("addedges", es, self.batch_weights(len(es)), [gen_meta(rng, allow_none=False) for _ in es] if rng.random() < 0.2 else None)
+        if r < 0.7:
+            return ("addedge", self.edge(spec, present=rng.random() < 0.7), self.weight() if rng.random() < 0.9 else None, gen_meta(rng))
+        if r < 0.82:
+            return ("setw", self.edge(spec, present=True), self.weight())
+        if r < 0.94:
+            return ("rmnode", self.node(spec, True), True)
+        ns = sorted(spec.nodes)
+        rng.shuffle(ns)
+        return ("rmnodes", ns[:rng.randint(1, 2)], True)
 
     def edge(self, spec=None, present=None):
         rng = self.rng
         r = rng.random()
+        if self.hot is not None and spec is not None and rng.random() < 0.7:
+            # a hyperedge that meets the members of the call that was just rejected
+            hot = self.hot[1]
+            cands = [sorted(k) for k in spec.edges if hot & set(k)] + [list(e) for e in self.pool if hot & set(e)]
+            if cands:
+                return perm(rng, rng.choice(cands))
         if present is not None and spec is not None and spec.edges and r < (0.8 if present else 0.0):
             return perm(rng, rng.choice(sorted(map(sorted, spec.edges))))
         if r < 0.85:
@@ -1433,6 +1938,8 @@ class Gen:
 
     def node(self, spec=None, present=True):
         rng = self.rng
+        if self.hot is not None and rng.random() < 0.7:
+            return rng.choice(sorted(self.hot[1]))
         if spec is not None and spec.nodes and rng.random() < (0.88 if present else 0.3):
             return rng.choice(sorted(spec.nodes))
         return rng.randrange(self.n)
@@ -1440,13 +1947,23 @@ class Gen:
     def op(self, spec):
         """one operation for a slot whose oracle state is `spec`"""
         rng = self.rng
+        if self.colliding and rng.random() < 0.15:
+            c = self.collide_op(spec)
+            if c is not None:
+                return c
+        if self.flavour == "weights" and rng.random() < 0.5:
+            return self.weight_op(spec)
         r = rng.random() * 100
         bad = rng.random() < 0.12
+        if rng.random() < 0.03:
+            # a listing of the library handed straight back to it
+            return rng.choice([("rmedges*", rng.choice(FILTERS) + (rng.random() < 0.5,)), ("rmedges*", (None, None, False)),
+                               ("rmnodes*", rng.random() < 0.5), ("addedges*", rng.randrange(2)), ("addedges*", rng.randrange(2))])
         if r < 22:
             if spec.w:
-                w = None if rng.random() < 0.15 else gen_weight(rng)
+                w = None if rng.random() < 0.15 else self.weight()
             else:
-                w = rng.choice([None, None, None, None, ONE]) if not bad else rng.choice([2, 8, 6])
+                w = rng.choice([None, None, None, one_token(rng), one_token(rng)]) if not bad else self.weight()
             return ("addedge", self.edge(spec, present=rng.random() < 0.35), w, gen_meta(rng))
         if r < 30:
             k = rng.choice([0, 1, 1, 2, 2, 3, 4])
@@ -1461,16 +1978,16 @@ class Gen:
                         seen.add(e)
                         es2.append(e)
                 es = es2
-                ws = [gen_weight(rng) for _ in es]
+                ws = self.batch_weights(len(es))
                 if bad:
                     b = rng.random()
                     if b < 0.4 and ws:
                         ws = ws[:-1]
                     elif b < 0.7:
-                        ws = ws + [4]
+                        ws = ws + [self.weight()]
                     elif es:
                         es = es + [es[0]]
-                        ws = ws + [4]
+                        ws = ws + [self.weight()]
             mds = None
             if rng.random() < 0.4:
                 mds = [gen_meta(rng, allow_none=False) for _ in es]
@@ -1521,7 +2038,7 @@ class Gen:
                     mds[rng.randrange(self.n)] = {}
             return ("addnodes", ns, mds)
         if r < 74:
-            w = gen_weight(rng) if (spec.w or bad) else ONE
+            w = self.weight() if (spec.w or bad) else one_token(rng)
             return ("setw", self.edge(spec, present=not bad), w)
         if r < 77:
             return ("setnmeta", self.node(spec, not bad), gen_meta(rng, allow_none=False))
@@ -1541,26 +2058,73 @@ class Gen:
             return ("delattrn", n, rng.choice(ks) if ks and rng.random() < 0.8 else rng.randrange(len(KEYS)))
         if r < 98:
             e = self.edge(spec, present=not bad)
-            ks = sorted(spec.edges.get(frozenset(e), [0, {}])[1])
+            ks = sorted(spec.edges.get(frozenset(e), [0, {}, 0])[1])
             return ("delattre", e, rng.choice(ks) if ks and rng.random() < 0.8 else rng.randrange(len(KEYS)))
         return ("clear",)
 
+    def derive(self, i, spec):
+        """('derive', i, how, arg): slot i becomes an object made by another part of the library"""
+        rng = self.rng
+        hows = ["sub", "sub", "suborders", "suborders", "sublcc", "edgesub", "edgesub", "filter", "addrand", "addrand"]
+        if self.kind == "int":
+            hows += ["random"] * 3
+        how = rng.choice(hows)
+        if how == "sub":
+            ns = sorted(spec.nodes)
+            rng.shuffle(ns)
+            return ("derive", i, how, ns[:rng.randint(max(0, len(ns) - 2), len(ns))])
+        if how == "suborders":
+            xs = [rng.randint(-1, 3) for _ in range(rng.randint(1, 3))]
+            if rng.random() < 0.5:
+                return ("derive", i, how, (xs, None, rng.random() < 0.6))
+            return ("derive", i, how, (None, [x + 1 for x in xs], rng.random() < 0.6))
+        if how == "sublcc":
+            return ("derive", i, how, None)
+        if how == "edgesub":
+            f = rng.choice(FILTERS)
+            return ("derive", i, how, (f[0], f[1], rng.random() < 0.5, rng.random() < 0.5))
+        if how == "filter":
+            def crit():
+                return {rng.randrange(len(KEYS)): rng.sample(range(len(VALS)), rng.randint(1, 5))}
+            nc = crit() if rng.random() < 0.6 else None
+            ec = crit() if (nc is None or rng.random() < 0.4) else None
+            return ("derive", i, how, (nc, ec, rng.choice(["keep", "remove", "remove"]),
+                                       self.profile == "grid" and rng.random() < 0.5))
+        if how == "addrand":
+            return ("derive", i, how, (rng.randint(0, 4), rng.random() < 0.5, rng.randrange(1000),
+                                       None if rng.random() < 0.5 else rng.randint(0, 3)))
+        by = {}
+        for _ in range(rng.randint(1, 3)):
+            by[rng.randint(1, min(4, self.n))] = rng.randint(0, 4)
+        return ("derive", i, how, (self.n, by, rng.randrange(1000)))
+
     def command(self, specs):
-        """('on', i, op) | ('new', i, w, hm) | ('copy', i, j) | ('ctor', i, w, hm, nmeta, es, ws, mds)"""
+        """('on', i, op) | ('new', i, w, hm) | ('copy', i, j[, how]) | ('ctor', i, w, hm, nmeta, es, ws, mds) |
+        ('derive', i, how, arg)"""
         rng = self.rng
         r = rng.random()
-        if r < 0.035:
+        if self.hot is not None:
+            # right after a rejected call: other entry points on its members (and sometimes a copy first)
+            if r < 0.06:
+                i = self.hot[0]
+                return ("copy", i, 1 - i, rng.choice(COPYHOW))
+            return ("on", self.hot[0], self.op(specs[self.hot[0]]))
+        if r < 0.045:
             i, j = rng.sample(range(2), 2)
-            return ("copy", i, j)
-        if r < 0.05:
+            return ("copy", i, j, rng.choice(COPYHOW))
+        if r < 0.085:
+            i = rng.randrange(2)
+            c = self.derive(i, specs[i])
+            return c + (1 - i,) if rng.random() < 0.4 else c
+        if r < 0.10:
             return ("new", rng.randrange(2), rng.random() < 0.5, gen_meta(rng, allow_none=False) if rng.random() < 0.4 else {})
-        if r < 0.07:
+        if r < 0.125:
             w = rng.random() < 0.5
             es = [self.edge() for _ in range(rng.randint(0, 4))]
             es = list(dict.fromkeys(es))
             ws = None
             if rng.random() < (0.8 if w else 0.15):
-                ws = [gen_weight(rng) for _ in es]
+                ws = self.batch_weights(len(es))
                 if rng.random() < 0.2 and ws:
                     ws = ws[:-1]
             mds = [gen_meta(rng, allow_none=False) for _ in es] if rng.random() < 0.3 else None
@@ -1584,6 +2148,9 @@ def fix_cmd(c):
     """normalise a command read back from JSON (dict keys became strings)"""
     def fm(m):
         return None if m is None else {int(k): v for k, v in m.items()}
+
+    def fw(t):
+        return tuple(t) if isinstance(t, list) else t
     c = list(c)
     if c[0] == "on":
         o = list(c[2])
@@ -1592,10 +2159,15 @@ def fix_cmd(c):
         elif o[0] == "addnodes":
             o[2] = None if o[2] is None else {int(k): fm(v) for k, v in o[2].items()}
         elif o[0] == "addedge":
-            o[1] = tuple(o[1]); o[3] = fm(o[3])
+            o[1] = tuple(o[1]); o[2] = fw(o[2]); o[3] = fm(o[3])
         elif o[0] == "addedges":
             o[1] = [tuple(e) for e in o[1]]; o[3] = None if o[3] is None else [fm(m) for m in o[3]]
-        elif o[0] in ("rmedge", "setw", "attre", "delattre"):
+            o[2] = None if o[2] is None else [fw(t) for t in o[2]]
+        elif o[0] == "setw":
+            o[1] = tuple(o[1]); o[2] = fw(o[2])
+        elif o[0] == "rmedges*":
+            o[1] = tuple(o[1])
+        elif o[0] in ("rmedge", "attre", "delattre"):
             o[1] = tuple(o[1])
         elif o[0] == "rmedges":
             o[1] = [tuple(e) for e in o[1]]
@@ -1612,7 +2184,18 @@ def fix_cmd(c):
         c[3] = fm(c[3]) or {}
         c[4] = None if c[4] is None else {int(k): fm(v) for k, v in c[4].items()}
         c[5] = None if c[5] is None else [tuple(e) for e in c[5]]
+        c[6] = None if c[6] is None else [fw(t) for t in c[6]]
         c[7] = None if c[7] is None else [fm(m) for m in c[7]]
+    elif c[0] == "derive":
+        a = c[3]
+        if c[2] == "filter":
+            fc = lambda d: None if d is None else {int(k): list(v) for k, v in d.items()}
+            a = (fc(a[0]), fc(a[1]), a[2], a[3])
+        elif c[2] == "random":
+            a = (a[0], {int(k): v for k, v in a[1].items()}, a[2])
+        elif isinstance(a, list) and c[2] != "sub":
+            a = tuple(a)
+        c[3] = a
     return tuple(c)
 
 
@@ -1642,6 +2225,47 @@ def ctor_spec(c):
 class Problem(Exception):
     def __init__(self, kind, what, step):
         self.kind, self.what, self.step = kind, what, step
+
+
+BATCHED = ("addnodes", "addedges", "rmedges", "rmnodes")
+
+
+def batched_vs_single(real, h, twin, singles):
+    """None, or how the hypergraph `h` left by a batched call differs from `twin` after `singles(twin)` (which may also
+    build the twin).  Both sides are the implementation: no oracle, no model - the property's "single or batched"."""
+    try:
+        t = singles(twin)
+        if twin is None:
+            twin = t
+        a, b = real.observe(h), real.observe(twin)
+    except AlarmTimeout:
+        raise
+    except Exception as ex:
+        return f"the single calls raised {type(ex).__name__}: {ex}"
+    for k in a:
+        if a[k] != b[k]:
+            return f"{k}: batched {a[k]!r}, one by one {b[k]!r}"
+    return None
+
+
+def clamp_derive(how, arg, spec, n):
+    """the arguments the unchanged routines take on the hypergraph at hand (a function of the abstract state only)"""
+    import math
+    nn = len(spec.nodes)
+    if how == "sub":
+        return [x for x in arg if x in spec.nodes]
+    if how == "sublcc" and nn == 0:
+        return None
+    if how == "addrand":
+        size, inplace, seed, count = arg
+        size = min(size, nn)
+        if count is not None:
+            count = min(count, math.comb(nn, size))
+        return (size, inplace, seed, count)
+    if how == "random":
+        m, by, seed = arg
+        return (m, {int(k): v for k, v in by.items() if int(k) <= m}, seed)
+    return arg
 
 
 def digest_queries(n_nodes):
@@ -1701,17 +2325,41 @@ def run_history(case, drv, rng, stats=None, full_every=False, small=False):
         if c[0] == "on":
             _, i, op = c
             P = real.P(step, "op" + repr((i, op)))
-            op, thunk = real.prepare(i, op, P)     # the operation in the order its containers list it
+            if stats is not None and op[0].endswith("*"):
+                stats["arg:library_listing"] = stats.get("arg:library_listing", 0) + 1
+            try:
+                op, thunk = real.prepare(i, op, P)     # the operation in the order its containers list it
+            except AlarmTimeout:
+                raise
+            except Exception as ex:
+                if not op[0].endswith("*"):
+                    raise
+                raise Problem("violation", f"step {step} {op!r}: reading the listing to hand back raised / gave {type(ex).__name__}: {ex}", step)
             before = [copy.deepcopy(specs[i].digest())]
             if op[0] in ("addedge", "addedges"):
                 es = [op[1]] if op[0] == "addedge" else op[1]
                 if any(frozenset(e) in ever[i] for e in es if i < 2):
                     facts["reinsertion_try"] = True
+            specs[i].inexact = False
+            o_ok = specs[i].do(op)
+            if specs[i].inexact:
+                # Python cannot add the weights of this call exactly in the order the containers list them: "adds its
+                # weight" would mean something else for a plain Python map than for the model.  The history ends here.
+                specs[i].inexact = False
+                facts["cut"] = True
+                break
+            twin = None
+            if op[0] in BATCHED and o_ok and real.pres is not None and P.r.random() < 0.6:
+                try:
+                    twin = real.slots[i].copy()
+                except AlarmTimeout:
+                    raise
+                except Exception:
+                    twin = None
             r_ok = real.call(thunk, P)
             kept = real.check_held()
             if kept:
                 raise Problem("violation", f"step {step} {op_line(i, op)!r}: {kept}", step)
-            o_ok = specs[i].do(op)
             lines.append(op_line(i, op)); expect.append(("ctl", "ok" if r_ok else "rej", None))
             if r_ok != o_ok:
                 raise Problem("violation", f"step {step} {op_line(i, op)!r}: implementation "
@@ -1719,6 +2367,20 @@ def run_history(case, drv, rng, stats=None, full_every=False, small=False):
             if stats is not None:
                 stats["op:" + op[0]] = stats.get("op:" + op[0], 0) + 1
                 stats["accepted" if r_ok else "rejected"] = stats.get("accepted" if r_ok else "rejected", 0) + 1
+                if op[0] == "addedges" and op[2] is not None and r_ok:
+                    ks = {wkind(t, j) for j, t in enumerate(op[2])}
+                    big = any(abs(wq(t)) > 2 ** 55 for t in op[2])
+                    if len(ks) > 1:
+                        stats["batch_mixed_types"] = stats.get("batch_mixed_types", 0) + 1
+                    if big and ks & {"f", "F", "h"} and ks & {"i", "q", "I"}:
+                        stats["batch_bigint_next_to_float"] = stats.get("batch_bigint_next_to_float", 0) + 1
+            if twin is not None:
+                diff = batched_vs_single(real, real.slots[i], twin, lambda t: real.one_by_one(t, op, real.P(step, "twin" + repr(op))))
+                if stats is not None:
+                    stats["batched_vs_one_by_one"] = stats.get("batched_vs_one_by_one", 0) + 1
+                if diff:
+                    raise Problem("violation", f"step {step} {op_line(i, op)!r}: the batched call and the same members one "
+                                               f"call each (on a copy taken before) leave different hypergraphs: {diff}", step)
             if r_ok:
                 facts["accepted"] += 1
                 if op[0] in ("rmedge", "rmedges", "rmnode", "rmnodes") and specs[i].digest()[2] != before[0][2]:
@@ -1760,22 +2422,35 @@ def run_history(case, drv, rng, stats=None, full_every=False, small=False):
                 raise Problem("violation", f"step {step}: Hypergraph(weighted={w}, hypergraph_metadata=...) raised", step)
             queries(i, light_queries(rng, n, pool), step)
         elif c[0] == "copy":
-            _, i, j = c
-            ok = real.copy(i, j)
+            i, j = c[1], c[2]
+            how = c[3] if len(c) > 3 else "copy"
+            ok = real.copy(i, j, how)
+            if stats is not None:
+                stats["start:" + how] = stats.get("start:" + how, 0) + 1
             specs[j] = copy.deepcopy(specs[i])
             if j < 2:
                 ever[j] = set(ever[i]) if i < 2 else set()
             lines.append(f"copy {i} {j}"); expect.append(("ctl", "ok" if ok else "rej", None))
             if not ok:
-                raise Problem("violation", f"step {step}: copy() raised", step)
+                raise Problem("violation", f"step {step}: making a copy of the hypergraph ({how}) raised", step)
             queries(j, light_queries(rng, n, pool), step)
             queries(i, light_queries(rng, n, pool), step)
         elif c[0] == "ctor":
             i = c[1]
             P = real.P(step, repr(c))
             c, thunk = real.prepare_ctor(c, P)
-            ok = real.call(thunk, P)
             s = ctor_spec(c)
+            if s is not None and s.inexact:
+                facts["cut"] = True
+                break
+            ok = real.call(thunk, P)
+            if ok and s is not None and real.pres is not None and P.r.random() < 0.6:
+                diff = batched_vs_single(real, real.slots[i], None, lambda _: real.ctor_one_by_one(c, real.P(step, "twin" + repr(c))))
+                if stats is not None:
+                    stats["batched_vs_one_by_one"] = stats.get("batched_vs_one_by_one", 0) + 1
+                if diff:
+                    raise Problem("violation", f"step {step}: the constructor call {c!r} and the same nodes / hyperedges "
+                                               f"one call each on an empty hypergraph give different hypergraphs: {diff}", step)
             if ok != (s is not None):
                 raise Problem("violation", f"step {step}: constructor {'returned' if ok else 'raised'} but the same calls on "
                               f"the abstract hypergraph are {'rejected' if ok else 'accepted'}: {c!r}", step)
@@ -1798,6 +2473,45 @@ def run_history(case, drv, rng, stats=None, full_every=False, small=False):
                     if outs[-1] != "rej":
                         raise Problem("disagree", f"constructor raised, model accepts every call of {cl!r}", step)
             queries(i, light_queries(rng, n, pool), step)
+        elif c[0] == "derive":
+            i, how, arg = c[1], c[2], c[3]
+            src = i
+            if len(c) > 4 and c[4] is not None and how not in ("filter", "random") and not (how == "addrand" and arg[1]):
+                i = c[4]          # the new object goes to another slot, the source stays under observation
+            arg = clamp_derive(how, arg, specs[src], n)
+            if how == "sublcc" and not specs[src].nodes:       # (max() of no components raises in the unchanged code)
+                how, arg = "sub", []
+            P = real.P(step, repr(c))
+            if stats is not None:
+                stats["start:" + how] = stats.get("start:" + how, 0) + 1
+            bad = real.derive(src, how, arg, P, i)
+            if bad:
+                raise Problem("violation", f"step {step}: {how} {arg!r} on a hypergraph of the history {bad}", step)
+            try:
+                w, hm, nodes, edges = real.readout(i)
+            except AlarmTimeout:
+                raise
+            except Exception as ex:
+                raise Problem("violation", f"step {step}: the hypergraph made by {how} {arg!r} cannot be read: {ex}", step)
+            # from here on the history runs on that object: whatever it holds is the abstract hypergraph to start from
+            sp = PySpec(w)
+            sp.hm = dict(hm)
+            sp.nodes = {x: dict(m) for x, m in nodes.items()}
+            sp.edges = {frozenset(e): [q if w else ONE, dict(m), pv if w else 1] for e, q, m, pv in edges}
+            specs[i] = sp
+            if i < 2:
+                ever[i] = set(sp.edges)
+            init = [f"new 2 {1 if w else 0} -", f"op 2 sethmeta {w_meta(hm)}"]
+            init += [op_line(2, ("addnode", x, m)) for x, m in nodes.items()]
+            if edges:
+                init.append(op_line(2, ("addedges", [e for e, _, _, _ in edges], [q for _, q, _, _ in edges] if w else None,
+                                        [m for _, _, m, _ in edges])))
+            init.append(f"copy 2 {i}")
+            for ln in init:
+                lines.append(ln); expect.append(("ctl", "ok", None))
+            queries(i, light_queries(rng, n, pool), step)
+            if src != i:
+                queries(src, light_queries(rng, n, pool), step)
         else:
             raise ValueError(c[0])
         flush(step)
@@ -1826,8 +2540,8 @@ def check_history(ctx, drv, case, rng, stats, full_every=False, record=True, sma
     if record and facts is not None:
         key = repr((case["n"], case["cmds"]))
         ctx.case(key, facts["removal"] and facts["reinsertion"], sample=case)
-        for k in ("removal", "reinsertion", "merge", "fresh_shrink"):
-            if facts[k]:
+        for k in ("removal", "reinsertion", "merge", "fresh_shrink", "cut"):
+            if facts.get(k):
                 ctx.count("histories_with_" + k)
         ctx.count("histories_with_rejection", 1 if facts["rejected"] else 0)
     return prob
@@ -1868,26 +2582,119 @@ def report(ctx, drv, case, prob, rng):
     (ctx.violation if prob2.kind == "violation" else ctx.disagree)(case2, prob2.what)
 
 
+def approx_derive(spec, how, arg, n):
+    """generation only: roughly what the derived object will hold, so that the following commands can aim at present /
+    absent members (the run takes the content from the object itself)"""
+    t = copy.deepcopy(spec)
+    try:
+        if how == "sub":
+            keep = set(arg)
+            t.nodes = {x: m for x, m in t.nodes.items() if x in keep}
+            t.edges = {k: v for k, v in t.edges.items() if k <= keep}
+        elif how in ("suborders", "edgesub"):
+            if how == "suborders":
+                sizes = set(arg[1]) if arg[1] is not None else {o + 1 for o in arg[0]}
+                ok = lambda k: len(k) in sizes
+                keep_nodes = arg[2]
+            else:
+                p = PySpec._flt((arg[0], arg[1], arg[2]))
+                ok = (lambda k: True) if p is None else p
+                keep_nodes = arg[3]
+            t.edges = {k: v for k, v in t.edges.items() if ok(k)}
+            if not keep_nodes:
+                live = set().union(*t.edges) if t.edges else set()
+                t.nodes = {x: m for x, m in t.nodes.items() if x in live}
+        elif how == "filter":
+            nc, ec, mode, keep = arg
+            def match(md, c):
+                return all(md.get(a) in vs for a, vs in c.items())
+            if nc is not None:
+                for x in [x for x, m in t.nodes.items() if match(m, nc) == (mode == "remove")]:
+                    t._remove_node(x, keep)
+            if ec is not None:
+                for k in [k for k, v in t.edges.items() if match(v[1], ec) == (mode == "remove")]:
+                    del t.edges[k]
+        elif how == "random":
+            t = PySpec()
+            t.nodes = {x: {} for x in range(n)}
+        t.hm = {0: 1 if t.w else 0, 1: 2} if how != "filter" and how != "addrand" else t.hm
+        t.inexact = False
+    except Exception:
+        return spec
+    return t
+
+
+def unstar(op, specs):
+    """generation only: a call that hands a listing back, as the plain batched call it will (roughly) be"""
+    if op[0] == "rmedges*":
+        p = PySpec._flt(op[1])
+        return ("rmedges", [tuple(sorted(k)) for k in specs[op[2]].edges if p(k)])
+    if op[0] == "rmnodes*":
+        return ("rmnodes", list(specs[op[2]].nodes), op[1])
+    if op[0] == "addedges*":
+        src = specs[op[1]]
+        return ("addedges", [tuple(sorted(k)) for k in src.edges], [wtoken_of(v[2]) for v in src.edges.values()] if src.w else None, None)
+    return op
+
+
 def gen_case(rng, max_len=40):
     g = Gen(rng)
     specs = [PySpec() for _ in range(NSLOT)]
     cmds = []
     L = rng.choice([1, 2, 3, 5, 8, 12, 16, 20, 25, 30, max_len])
-    for _ in range(L):
+    if g.flavour == "weights" and rng.random() < 0.7:
+        cmds.append(("new", 0, True, {}))
+        specs[0] = PySpec(True, {})
+        if rng.random() < 0.3:
+            cmds.append(("new", 1, True, {}))
+            specs[1] = PySpec(True, {})
+    tries = 0
+    while len(cmds) < L and tries < 4 * L + 8:
+        tries += 1
         c = g.command(specs)
-        cmds.append(c)
-        # keep the oracle states going so that the generator can aim at present / absent members
+        hot = None
+        # keep the oracle states going so that the generator can aim at present / absent members; a command whose
+        # weight additions Python cannot do exactly (2**53 + 1 + 0.5) is not part of the history
         if c[0] == "on":
-            specs[c[1]].do(c[2])
+            sp = specs[c[1]]
+            sp.inexact = False
+            ok = sp.do(unstar(c[2] + (c[1],) if c[2][0] in ("rmedges*", "rmnodes*") else c[2], specs))
+            if sp.inexact:
+                sp.inexact = False
+                continue
+            if not ok and g.hot is None and rng.random() < 0.75:
+                # the call is rejected: its members are where a half-done operation would have left something behind
+                op = c[2]
+                mem = set()
+                if op[0] in ("addedge", "rmedge", "setw", "setemeta", "attre", "delattre"):
+                    mem = set(op[1])
+                elif op[0] in ("addedges", "rmedges"):
+                    mem = set(x for e in op[1] for x in e)
+                elif op[0] in ("rmnodes", "addnodes"):
+                    mem = set(op[1])
+                elif op[0] in ("rmnode", "addnode", "setnmeta", "attrn", "delattrn"):
+                    mem = {op[1]}
+                if mem:
+                    hot = (c[1], mem, rng.randint(1, 3))
         elif c[0] == "new":
             specs[c[1]] = PySpec(c[2], c[3])
         elif c[0] == "copy":
             specs[c[2]] = copy.deepcopy(specs[c[1]])
         elif c[0] == "ctor":
             s = ctor_spec(c)
+            if s is not None and s.inexact:
+                continue
             if s is not None:
                 specs[c[1]] = s
-    return {"n": g.n, "kind": g.kind, "labels": [enc_label(x) for x in g.labels], "pres": rng.getrandbits(31) | 1,
+        elif c[0] == "derive":
+            j = c[4] if (len(c) > 4 and c[2] not in ("filter", "random") and not (c[2] == "addrand" and c[3][1])) else c[1]
+            specs[j] = approx_derive(specs[c[1]], c[2], c[3], g.n)
+        cmds.append(c)
+        if hot is not None:
+            g.hot = hot
+        elif g.hot is not None:
+            g.hot = (g.hot[0], g.hot[1], g.hot[2] - 1) if g.hot[2] > 1 else None
+    return {"n": g.n, "kind": g.kind, "wprofile": g.profile, "labels": [enc_label(x) for x in g.labels], "pres": rng.getrandbits(31) | 1,
             "pool": [list(e) for e in g.pool], "cmds": cmds}
 
 
@@ -1902,6 +2709,15 @@ def alphabet3():
          ("addnode", 2, {2: 4}), ("addnodes", [0, 2], {0: {}}), ("setw", (0, 1), 8), ("setw", (1, 0), ONE),
          ("attre", (1, 0), 2, 3), ("delattre", (0, 1), 2), ("delattrn", 2, 2), ("clear",)]
     return A
+
+
+def alphabet_w():
+    """extra calls for the exhaustive WEIGHTED short histories: one batch mixing an integer beyond 2**53 with a float, the
+    same single, numbers of other types"""
+    big = 4 * (2 ** 53 + 1)
+    return [("addedges", [(0, 1), (1, 2)], [(big, "i"), (2, "f")], None), ("addedges", [(1, 0), (0, 1, 2)], [(12, "i"), (6, "F")], None),
+            ("addedge", (1, 0), (big, "i"), None), ("addedge", (0, 1), (4, "b"), None), ("addedge", (2, 1), (3, "q"), None),
+            ("setw", (0, 1), (8, "I")), ("setw", (1, 0), (4 * 2 ** 63, "i")), ("rmedges*", (None, None, False)), ("addedges*", 0)]
 
 
 def run(ctx):
@@ -1933,7 +2749,7 @@ def run(ctx):
         nexh = 0
         for w, lengths in ((False, (1, 2, 3)), (True, (1, 2))):
             for L in lengths:
-                for ops in itertools.product(A, repeat=L):
+                for ops in itertools.product(A + alphabet_w() if w else A, repeat=L):
                     cmds = ([("new", 0, True, {})] if w else []) + [("on", 0, o) for o in ops]
                     case = {"n": 3, "kind": "int", "labels": [0, 1, 2] if nexh % 3 else [5, 300, 2 ** 40],
                             "pres": 2 * nexh + 1, "pool": [[0, 1], [0, 1, 2], [1, 2], [1], []], "cmds": cmds}
